@@ -94,6 +94,7 @@ Lemma source_tables :
                       /\ freq_high (Fin n) PosInf = false)
   /\ null_member_is_none = true /\ body_lookup_both_key_forms = true /\ single_none_is_null = true
   /\ int_slot_float_is_int = true /\ ret_bool_by_identity = true /\ hier_counts_array_items = false
+  /\ cycle_guard_per_branch = true
   /\ handlers = expected_handlers
   /\ GMsgpack_key_utf8 = true /\ GJson_key_utf8 = false /\ GYaml_key_utf8 = false
   /\ GMsgpack_writes_bytes = true /\ GJson_base64 = true /\ GYaml_base64 = true.
@@ -103,7 +104,7 @@ Proof.
   split; [intros m; apply (reads_many_spec m)|]. split; [apply (reads_many_spec 0)|].
   split; [exact wrapper_arity_spec|]. split; [exact freq_spec|].
   destruct repairs_in_place as (A & B & C & _ & D & E & _ & F). split; [exact A|]. split; [exact B|]. split; [exact C|].
-  split; [exact D|]. split; [exact E|]. split; [exact F|].
+  split; [exact D|]. split; [exact E|]. split; [exact F|]. split; [exact cycle_guard_spec|].
   split; [exact handlers_as_modelled|].
   destruct protocol_facts as (j & y & m & _ & _ & mb & jb & yb & _).
   repeat split; assumption.
